@@ -406,5 +406,5 @@ func genC06(t *rapid.T) c06Case {
 func init() { register("C06", checkC06) }
 
 func TestC06(t *testing.T) {
-	runProp(t, "C06", checkC06, nil, part[c06Case]{"candidate-multisets", scale(1500, 12000), genC06})
+	runProp(t, "C06", checkC06, nil, part[c06Case]{"candidate-multisets", scale(5000, 15000), genC06})
 }
